@@ -84,6 +84,17 @@ def sample_rules(ctx: Context) -> None:
     ctx.check(len(ra) == 4 and ra[0] == want_n and ra[1:] == ["search_space", "existing_points", "existing_losses"], "D4.redraw-size", "BaseSampler.sample:redraw-args",
               "redraw: sample_batch(len(repeats), search_space, existing_points, existing_losses)",
               f"redraw called with {[r.replace(find_text, '<repeats>') for r in ra]}", f, redraw[0])
+    # what the generator is handed is what sample() was handed: the history / search-space parameters are never re-bound (a snapped, filtered or
+    # de-duplicated copy of the history would reach the redraws - and the surrogates' training - under the old name)
+    for prm in ("search_space", "existing_points", "existing_losses"):
+        if prm in f.params:
+            reb = [x for x in ast.walk(f.node) if isinstance(x, ast.Name) and x.id == prm and isinstance(x.ctx, ast.Store)]
+            ctx.check(not reb, "D4.history-args", f"BaseSampler.sample:{prm}:not-rebound", f"`{prm}` reaches sample_batch as it was passed in",
+                      f"`{prm}` is re-bound inside sample() (`{src(getattr(reb[0], '_parent', reb[0]))[:70] if reb else ''}`): the draws and redraws are then computed from something other than "
+                      "the history the caller passed", f, getattr(reb[0], "_parent", reb[0]) if reb else f.node)
+    fa0 = [str(n.rat(x)) for x in first[0].args]
+    ctx.check(len(fa0) == 4 and fa0[1:] == ["search_space", "existing_points", "existing_losses"], "D4.history-args", "BaseSampler.sample:first-draw-args",
+              "first draw: sample_batch(batch_size, search_space, existing_points, existing_losses)", f"first draw called with {fa0}", f, first[0])
     # D5: only store into the batch
     rets = returns_of(f)
     for r in rets:
